@@ -11,7 +11,8 @@
     old signature area.  `xar_front_member_lost`: a member in front of / inside that area ends up inside relic's own
     signature area: its bytes are gone (`Sign` never looks at the `<offset>` of the old signature elements, it trusts the sum
     of their `<size>`s to be a prefix of the heap; listed finding FXAR3).
-  * `xar_ea_offset_stale`: heap references outside `<data>` (extended attributes, `<ea><offset>`) are not adjusted (FXAR2).
+  * `xar_ea_offset_shifted` (current tree) / `xar_ea_offset_stale_orig` (FXAR2): heap references of extended attributes.
+  Since fix 5d6eee4 `Sign` refuses the layouts of `xar_front_member_lost` (C01 `xar_sign_guards`, `xar_sign_refuses_bad_layouts`).
   * `xar_written_is_reference`: the patch is constructible, so C12 exactness applies.
 -/
 import Relic.Proofs.XarSign
@@ -39,47 +40,47 @@ example : ∃ s, signedFile [1, 2, 3, 4, 5] 2 [9, 9, 9] false = .ok ([9, 9, 9, 3
 /-- **xar_toc_changes_exact.**  For every document with a `/xar/toc`: the serialised document is the input document with
     (1) the `<checksum>`, `<signature>`, `<x-signature>` children of the first `<toc>` removed, (2) the new ones as its first
     children, (3) `adjustOffsets` applied to everything else.  Attributes, names, order and every other node are kept. -/
-theorem xar_toc_changes_exact (N : Num) (hk : HK) (ki : KeyInfo) (t : Xml) (p : Prep) (h : prep N hk ki t = some p) :
+theorem xar_toc_changes_exact (N : Num) (ea : Bool) (hk : HK) (ki : KeyInfo) (t : Xml) (p : Prep) (h : prep N hk ki t = some p) :
     ∃ ras pre tas tks post, t = .el "xar" ras (pre ++ .el "toc" tas tks :: post) ∧
-      p.tree N = .el "xar" ras (adjustKids N (w64 (p.newSig - p.origSig)) false pre ++
-        .el "toc" tas ((reserve N hk ki).1 ++ adjustKids N (w64 (p.newSig - p.origSig)) false (removeSigs N tks).2) ::
-        adjustKids N (w64 (p.newSig - p.origSig)) false post) := by
+      p.tree N ea = .el "xar" ras (adjustKids N ea (w64 (p.newSig - p.origSig)) false pre ++
+        .el "toc" tas ((reserve N hk ki).1 ++ adjustKids N ea (w64 (p.newSig - p.origSig)) false (removeSigs N tks).2) ::
+        adjustKids N ea (w64 (p.newSig - p.origSig)) false post) := by
   obtain ⟨ras, pre, tas, tks, post, rfl, _, rfl⟩ := prep_some N hk ki t p h
   refine ⟨ras, pre, tas, tks, post, rfl, ?_⟩
-  simp only [Prep.tree, adjust_doc, adjustKids_append, adjustKids_noData N _ _ (noDataL_reserve N hk ki)]
+  simp only [Prep.tree, adjust_doc, adjustKids_append, adjustKids_noRef N ea _ _ (noRefL_reserve N ea hk ki)]
 
 mutual
 /-- the document with the leading text of every `<data><offset>` blanked out -/
-def xarBlank (inData : Bool) : Xml → Xml
+def xarBlank (ea : Bool) (inData : Bool) : Xml → Xml
   | .el n as ks =>
-    if inData && n == "offset" then .el n as ((xarBlankKids (n == "data") ks).dropWhile (·.isTx))
-    else .el n as (xarBlankKids (n == "data") ks)
+    if inData && n == "offset" then .el n as ((xarBlankKids ea (isRef ea n) ks).dropWhile (·.isTx))
+    else .el n as (xarBlankKids ea (isRef ea n) ks)
   | .tx s => .tx s
-def xarBlankKids (inData : Bool) : List Xml → List Xml
+def xarBlankKids (ea : Bool) (inData : Bool) : List Xml → List Xml
   | [] => []
-  | k :: ks => xarBlank inData k :: xarBlankKids inData ks
+  | k :: ks => xarBlank ea inData k :: xarBlankKids ea inData ks
 end
 
-theorem xar_blank_isTx (b : Bool) (x : Xml) : (xarBlank b x).isTx = x.isTx := by
+theorem xar_blank_isTx (ea b : Bool) (x : Xml) : (xarBlank ea b x).isTx = x.isTx := by
   cases x with
   | tx s => simp [xarBlank]
   | el n as ks => simp only [xarBlank]; split <;> simp
 
-theorem xar_blankKids_dropWhile (b : Bool) : ∀ ks : List Xml, xarBlankKids b (ks.dropWhile (·.isTx)) = (xarBlankKids b ks).dropWhile (·.isTx)
+theorem xar_blankKids_dropWhile (ea b : Bool) : ∀ ks : List Xml, xarBlankKids ea b (ks.dropWhile (·.isTx)) = (xarBlankKids ea b ks).dropWhile (·.isTx)
   | [] => by simp [xarBlankKids]
-  | .tx s :: ks => by simp [xarBlankKids, xarBlank, List.dropWhile, xar_blankKids_dropWhile b ks]
+  | .tx s :: ks => by simp [xarBlankKids, xarBlank, List.dropWhile, xar_blankKids_dropWhile ea b ks]
   | .el n as c :: ks => by
-    have := xar_blank_isTx b (.el n as c)
+    have := xar_blank_isTx ea b (.el n as c)
     simp only [isTx_el] at this
     simp [xarBlankKids, List.dropWhile, this]
 
 mutual
 /-- **xar_only_offset_text_changes.**  `adjustOffsets` changes nothing but the leading text of `<offset>` children of `<data>`
     elements: with that text blanked out, the shifted document IS the original document (every tree, every shift). -/
-theorem xar_only_offset_text_changes (N : Num) (d : Int) (b : Bool) : ∀ x, xarBlank b (adjust N d b x) = xarBlank b x
+theorem xar_only_offset_text_changes (N : Num) (ea : Bool) (d : Int) (b : Bool) : ∀ x, xarBlank ea b (adjust N ea d b x) = xarBlank ea b x
   | .tx s => by simp [adjust]
   | .el n as ks => by
-    have ih := xar_blankKids_adjustKids N d (n == "data") ks
+    have ih := xar_blankKids_adjustKids N ea d (isRef ea n) ks
     simp only [adjust]
     by_cases hc : (b && n == "offset") = true
     · simp only [hc, ↓reduceIte]
@@ -88,20 +89,20 @@ theorem xar_only_offset_text_changes (N : Num) (d : Int) (b : Bool) : ∀ x, xar
           dropWhile_dropWhile_isTx]
       · simp only [xarBlank, hc, ↓reduceIte, ih]
     · simp only [hc, xarBlank, ih, Bool.false_eq_true, ↓reduceIte]
-theorem xar_blankKids_adjustKids (N : Num) (d : Int) (b : Bool) : ∀ ks, xarBlankKids b (adjustKids N d b ks) = xarBlankKids b ks
+theorem xar_blankKids_adjustKids (N : Num) (ea : Bool) (d : Int) (b : Bool) : ∀ ks, xarBlankKids ea b (adjustKids N ea d b ks) = xarBlankKids ea b ks
   | [] => by simp [adjustKids]
-  | k :: ks => by simp only [adjustKids, xarBlankKids, xar_only_offset_text_changes N d b k, xar_blankKids_adjustKids N d b ks]
+  | k :: ks => by simp only [adjustKids, xarBlankKids, xar_only_offset_text_changes N ea d b k, xar_blankKids_adjustKids N ea d b ks]
 end
 
 /-- **xar_heap_shift_exact.**  For a regular document that `encoding/xml` accepts: after `Sign` every file struct that saw a
     `<data>` element has `Offset + (newSigSize − origSigSize)` (int64), every other struct and every other field is
     unchanged, the signature elements are exactly those of the key; at every nesting depth, whether or not the member has
     an `<archived-checksum>`. -/
-theorem xar_heap_shift_exact (N : Num) (hN : N.Laws) (hk : HK) (ki : KeyInfo) (hki : ki.small) (t : Xml) (p : Prep) (x0 : XToc)
+theorem xar_heap_shift_exact (N : Num) (ea : Bool) (hN : N.Laws) (hk : HK) (ki : KeyInfo) (hki : ki.small) (t : Xml) (p : Prep) (x0 : XToc)
     (e : prep N hk ki t = some p) (hu : unmarshal N t = some x0) (hreg : regularDoc N t = true) :
-    ∃ x1, unmarshal N (p.tree N) = some x1 ∧ x1.ck = ⟨hk.name, 0, hk.size, []⟩ ∧
+    ∃ x1, unmarshal N (p.tree N ea) = some x1 ∧ x1.ck = ⟨hk.name, 0, hk.size, []⟩ ∧
       flatXs x1.files = (flatXs x0.files).map (FileAcc.shiftIf (w64 (p.newSig - p.origSig))) := by
-  refine ⟨_, unmarshal_signed N hN hk ki hki t p x0 e hu (regularDoc_shape N t hreg), ?_, ?_⟩
+  refine ⟨_, unmarshal_signed N ea hN hk ki hki t p x0 e hu (regularDoc_shape N t hreg), ?_, ?_⟩
   · unfold tocOfKey; cases ki.rsaSize <;> rfl
   · simp [flatXs_shift]
 
@@ -145,14 +146,31 @@ theorem xar_front_member_lost (f body : Bytes) (ot : Int) (newBase newSig origSi
   simp only [List.length_drop]
   omega
 
-/-- **xar_ea_offset_stale.**  An element that contains no `<data>` element — in particular `<ea>` with its `<offset>`,
-    `<length>`, `<archived-checksum>` describing a heap range — is left exactly as it was, whatever the shift. -/
-theorem xar_ea_offset_stale (N : Num) (d : Int) (x : Xml) (h : noData x = true) : adjust N d false x = x :=
-  adjust_noData N d x h
+/-- **xar_ea_offset_stale_orig** (tree before 5d6eee4: `adjustOffsets` visited `//data/offset` only).  An element that
+    contains no `<data>` element — in particular `<ea>` with its `<offset>`, `<length>`, `<archived-checksum>` describing a
+    heap range — was left exactly as it was, whatever the shift: the reference went stale (finding FXAR2). -/
+theorem xar_ea_offset_stale_orig (N : Num) (d : Int) (x : Xml) (h : noData x = true) : adjust N false d false x = x :=
+  adjust_noRef N false d x h
 
 example (N : Num) (d : Int) :
-    adjust N d false (.el "ea" [("id", "0")] [.el "name" [] [.tx "com.apple.x"], .el "offset" [] [.tx "44"], .el "length" [] [.tx "7"]]) =
+    adjust N false d false (.el "ea" [("id", "0")] [.el "name" [] [.tx "com.apple.x"], .el "offset" [] [.tx "44"], .el "length" [] [.tx "7"]]) =
       .el "ea" [("id", "0")] [.el "name" [] [.tx "com.apple.x"], .el "offset" [] [.tx "44"], .el "length" [] [.tx "7"]] :=
-  xar_ea_offset_stale N d _ (by decide)
+  xar_ea_offset_stale_orig N d _ (by decide)
+
+/-- **xar_ea_offset_shifted** (current tree: `//ea/offset` is visited too).  The `<offset>` child of an `<ea>` element, spelled
+    as `ParseInt` accepts it, now reads `offset + delta` after signing, exactly like the `<offset>` of a `<data>` element;
+    the other children of `<ea>` keep their text. -/
+theorem xar_ea_offset_shifted (N : Num) (hN : N.Laws) (d : Int) (as as' : List (String × String)) (pre post : List Xml) (s : String)
+    (hs : (N.atoi s).2 = true) :
+    ∃ pre' post', adjust N true d false (.el "ea" as (pre ++ .el "offset" as' [.tx s] :: post)) =
+      .el "ea" as (pre' ++ .el "offset" as' [.tx (N.fmt (w64 ((N.atoi s).1 + d)))] :: post') ∧
+      allText pre' = allText pre ∧ allText post' = allText post := by
+  have e1 : isRef true "ea" = true := by decide
+  have hnum : numOk N [.tx s] = true := by simp [numOk, allTx, etext, hs]
+  obtain ⟨o1, _, _⟩ := offset_shifted N true hN d as' [.tx s] hnum
+  refine ⟨adjustKids N true d true pre, adjustKids N true d true post, ?_, allText_adjustKids N true d true pre,
+    allText_adjustKids N true d true post⟩
+  rw [adjust_el_plain, e1, adjustKids_append, adjustKids_cons, o1]
+  simp [etext]
 
 end Relic.Props.C03
